@@ -20,66 +20,83 @@ func init() {
 	register(&stream{name: "c13.latency", gen: genC13, run: runC13, serial: true})
 }
 
-var c13Programs = []struct{ name, prog, query string }{
-	{"recursion", "loop :- loop.", "loop."},
-	{"repeat", "", "repeat, fail."},
-	{"between", "", "between(1, 1000000000, X), X < 0."},
-	{"length", "", "length(L, N), N < 0."},
-	{"findall", "gen(X) :- repeat, X = 1.", "findall(X, (gen(X), fail), L)."},
-	{"negation", "lp :- lp.", "\\+ lp."},
-	{"catch", "lq :- lq.", "catch(lq, _, true)."},
-	{"catchall", "", "catch((repeat, fail), _, true)."},
-	{"deepconj", "cnt(N) :- N1 is N + 1, cnt(N1).", "cnt(0)."},
-	{"member", "", "repeat, member(X, [a,b,c]), X == d."},
-	{"append", "", "append(X, Y, Z), fail."},
-	{"assert", ":- dynamic(c/1).", "repeat, assertz(c(1)), retract(c(1)), fail."},
-	{"atomgc", "", "repeat, atom_length(abc, N), N > 5."},
-	{"nested", "in :- \\+ \\+ findall(X, (repeat, X = 1, fail), _).", "in."},
-	{"initialization", "main :- main.", "EXEC::- initialization(main)."},
-	{"directive", "spin :- spin.", "EXEC::- spin."},
+var c13Programs = []struct{ name, prog, query, post string }{
+	{"recursion", "loop :- loop.", "loop.", ""},
+	{"repeat", "", "repeat, fail.", ""},
+	{"between", "", "between(1, 1000000000, X), X < 0.", ""},
+	{"length", "", "length(L, N), N < 0.", ""},
+	{"findall", "gen(X) :- repeat, X = 1.", "findall(X, (gen(X), fail), L).", ""},
+	{"negation", "lp :- lp.", "\\+ lp.", ""},
+	{"catch", "lq :- lq.", "catch(lq, _, true).", ""},
+	{"catchall", "", "catch((repeat, fail), _, true).", ""},
+	{"deepconj", "cnt(N) :- N1 is N + 1, cnt(N1).", "cnt(0).", ""},
+	{"member", "", "repeat, member(X, [a,b,c]), X == d.", ""},
+	{"append", "", "append(X, Y, Z), fail.", ""},
+	{"assert", ":- dynamic(c/1).", "repeat, assertz(c(1)), retract(c(1)), fail.", ""},
+	{"atomgc", "", "repeat, atom_length(abc, N), N > 5.", ""},
+	{"nested", "in :- \\+ \\+ findall(X, (repeat, X = 1, fail), _).", "in.", ""},
+	{"initialization", "main :- main.", "EXEC::- initialization(main).", ""},
+	{"directive", "spin :- spin.", "EXEC::- spin.", ""},
 	// file loads (consult/1, ensure_loaded/1) run nested trampolines for the file's directives and
 	// initialization goals: they must inherit the caller's context
-	{"consult", "spin :- spin.", "consult(loopdir)."},
-	{"consultinit", "spin :- spin.", "findall(x, consult(loopinit), _)."},
-	{"ensureloaded", "spin :- spin.", "EXEC::- ensure_loaded(nested)."},
+	{"consult", "spin :- spin.", "consult(loopdir).", ""},
+	{"consultinit", "spin :- spin.", "findall(x, consult(loopinit), _).", ""},
+	{"ensureloaded", "spin :- spin.", "EXEC::- ensure_loaded(nested).", ""},
 	// built-ins walking CYCLIC lists (created by an unchecked unification) with and without a bound on
 	// the walk: each call must come back (error, failure) so that the loop around it stays cancellable
-	{"lengthcyclic", "spin :- \\+ (L = [a|L], length(L, 4611686018427387904)), spin.", "spin."},
-	{"lengthcyclicvar", "spin :- catch((L = [a|L], length(L, _)), _, true), spin.", "spin."},
-	{"lengthcyclicsmall", "spin :- \\+ (L = [a,b|L], length(L, 7)), spin.", "spin."},
-	{"atomcharscyclic", "spin :- catch((L = [a|L], atom_chars(_, L)), _, true), spin.", "spin."},
-	{"atomcodescyclic", "spin :- catch((L = [0'a|L], atom_codes(_, L)), _, true), spin.", "spin."},
-	{"sortcyclic", "spin :- catch((L = [a|L], sort(L, _)), _, true), spin.", "spin."},
-	{"keysortcyclic", "spin :- catch((L = [a-1|L], keysort(L, _)), _, true), spin.", "spin."},
-	{"appendcyclic", "spin :- catch((L = [a|L], append(L, [x], _)), _, true), spin.", "spin."},
-	{"nth0cyclicsmall", "spin :- L = [a,b,c|L], nth0(1000, L, E), E == b, spin.", "spin."},
-	{"membercyclic", "", "L = [a|L], member(z, L)."},
-	{"univcyclic", "spin :- catch((L = [f|L], _ =.. L), _, true), spin.", "spin."},
-	{"lengthpartial", "", "length([a,b|T], N), N < 0."},
-	{"subatom", "", "repeat, sub_atom(abcdefghij, B, L, A, S), S == zz."},
-	{"atomconcat", "", "repeat, atom_concat(X, Y, abcdefghij), X == zz."},
-	{"setof", "g(X) :- repeat, X = 1.", "setof(X, g(X), L)."},
-	{"bagof", "g(X) :- repeat, X = 1.", "bagof(X, g(X), L)."},
-	{"callN", "lp :- lp.", "call(call, call, lp)."},
-	{"once", "lp :- lp.", "once(lp)."},
-	{"ifthenelse", "lp :- lp.", "( lp -> true ; true )."},
-	{"phrase", "s --> s.", "phrase(s, [a], _)."},
-	{"retractloop", ":- dynamic(c/1). c(0).", "repeat, retract(c(N)), N1 is N + 1, assertz(c(N1)), fail."},
-	{"copyterm", "", "repeat, copy_term(f(X, Y, X), Z), Z == a."},
-	{"readterm", "", "repeat, catch(read_term(user_input, T, []), _, true), T == zz."},
-	{"writeloop", "", "repeat, write(a), fail."},
-	{"oploop", "", "repeat, op(200, xfx, foo), current_op(_, _, foo), fail."},
-	{"charconv", "", "repeat, current_char_conversion(_, _), fail."},
-	{"termvars", "", "repeat, term_variables(f(_, _, _), _), fail."},
-	{"arith", "", "repeat, X is 2 ** 10 + max(1, 2) * 3 mod 7, X < 0."},
-	{"throwloop", "", "repeat, catch(throw(x), x, fail)."},
-	{"halt0no", "lp :- lp.", "catch(lp, _, true)."},
+	{"lengthcyclic", "spin :- \\+ (L = [a|L], length(L, 4611686018427387904)), spin.", "spin.", ""},
+	{"lengthcyclicvar", "spin :- catch((L = [a|L], length(L, _)), _, true), spin.", "spin.", ""},
+	{"lengthcyclicsmall", "spin :- \\+ (L = [a,b|L], length(L, 7)), spin.", "spin.", ""},
+	{"atomcharscyclic", "spin :- catch((L = [a|L], atom_chars(_, L)), _, true), spin.", "spin.", ""},
+	{"atomcodescyclic", "spin :- catch((L = [0'a|L], atom_codes(_, L)), _, true), spin.", "spin.", ""},
+	{"sortcyclic", "spin :- catch((L = [a|L], sort(L, _)), _, true), spin.", "spin.", ""},
+	{"keysortcyclic", "spin :- catch((L = [a-1|L], keysort(L, _)), _, true), spin.", "spin.", ""},
+	{"appendcyclic", "spin :- catch((L = [a|L], append(L, [x], _)), _, true), spin.", "spin.", ""},
+	{"nth0cyclicsmall", "spin :- L = [a,b,c|L], nth0(1000, L, E), E == b, spin.", "spin.", ""},
+	{"membercyclic", "", "L = [a|L], member(z, L).", ""},
+	{"univcyclic", "spin :- catch((L = [f|L], _ =.. L), _, true), spin.", "spin.", ""},
+	{"lengthpartial", "", "length([a,b|T], N), N < 0.", ""},
+	{"subatom", "", "repeat, sub_atom(abcdefghij, B, L, A, S), S == zz.", ""},
+	{"atomconcat", "", "repeat, atom_concat(X, Y, abcdefghij), X == zz.", ""},
+	{"setof", "g(X) :- repeat, X = 1.", "setof(X, g(X), L).", ""},
+	{"bagof", "g(X) :- repeat, X = 1.", "bagof(X, g(X), L).", ""},
+	{"callN", "lp :- lp.", "call(call, call, lp).", ""},
+	{"once", "lp :- lp.", "once(lp).", ""},
+	{"ifthenelse", "lp :- lp.", "( lp -> true ; true ).", ""},
+	{"phrase", "s --> s.", "phrase(s, [a], _).", ""},
+	{"retractloop", ":- dynamic(c/1). c(0).", "repeat, retract(c(N)), N1 is N + 1, assertz(c(N1)), fail.", ""},
+	{"copyterm", "", "repeat, copy_term(f(X, Y, X), Z), Z == a.", ""},
+	{"readterm", "", "repeat, catch(read_term(user_input, T, []), _, true), T == zz.", ""},
+	{"writeloop", "", "repeat, write(a), fail.", ""},
+	{"oploop", "", "repeat, op(200, xfx, foo), current_op(_, _, foo), fail.", ""},
+	{"charconv", "", "repeat, current_char_conversion(_, _), fail.", ""},
+	{"termvars", "", "repeat, term_variables(f(_, _, _), _), fail.", ""},
+	{"arith", "", "repeat, X is 2 ** 10 + max(1, 2) * 3 mod 7, X < 0.", ""},
+	{"throwloop", "", "repeat, catch(throw(x), x, fail).", ""},
+	{"halt0no", "lp :- lp.", "catch(lp, _, true).", ""},
+	// a looping user-defined term_expansion/2, reached by a load and by expand_term/2 (finding C13/F2)
+	{"termexpansion", "term_expansion(_, _) :- lp. lp :- lp.", "EXEC:foo.", ""},
+	{"expandterm", "term_expansion(_, _) :- lp. lp :- lp.", "expand_term(a, _).", ""},
+	// boundary values of enumerating built-ins inside a loop
+	{"betweenmax", "", "repeat, between(9223372036854775806, 9223372036854775807, X), X < 0.", ""},
+	{"betweenneg", "", "repeat, between(-1, 9223372036854775807, X), X < -1.", ""},
+	{"betweenwide", "", "between(-9223372036854775808, 9223372036854775807, X), X > 0, X < 0.", ""},
+	// what follows a goal that was being executed when the context ended must NOT run: the side effect
+	// behind it is checked by the post query
+	{"negthen", ":- dynamic(reached/1). lp :- lp.", "\\+ lp, assertz(reached(1)).", "\\+ reached(_)."},
+	{"negnegthen", ":- dynamic(reached/1). lp :- lp.", "\\+ \\+ lp, assertz(reached(1)).", "\\+ reached(_)."},
+	{"findallthen", ":- dynamic(reached/1). lp :- lp.", "findall(x, lp, _), assertz(reached(1)).", "\\+ reached(_)."},
+	{"catchthen", ":- dynamic(reached/1). lp :- lp.", "catch(lp, _, true), assertz(reached(1)).", "\\+ reached(_)."},
+	{"oncethen", ":- dynamic(reached/1). lp :- lp.", "once(lp), assertz(reached(1)).", "\\+ reached(_)."},
+	{"itethen", ":- dynamic(reached/1). lp :- lp.", "( lp -> true ; true ), assertz(reached(1)).", "\\+ reached(_)."},
+	{"negthendir", ":- dynamic(reached/1). lp :- lp.", "EXEC::- \\+ lp, assertz(reached(1)).", "\\+ reached(_)."},
+	{"bagofthen", ":- dynamic(reached/1). lp :- lp.", "( bagof(x, lp, _) ; true ), assertz(reached(1)).", "\\+ reached(_)."},
 }
 
 // programs on which the UNCHANGED code does not come back (known finding C13/K1): only in the corpus,
 // never drawn by the generator
-var c13KnownStuck = []struct{ name, prog, query string }{
-	{"nth0cyclichuge", "", "L = [a|L], nth0(4611686018427387904, L, _)."},
+var c13KnownStuck = []struct{ name, prog, query, post string }{
+	{"nth0cyclichuge", "", "L = [a|L], nth0(4611686018427387904, L, _).", ""},
 }
 
 var c13Files = fstest.MapFS{
@@ -109,14 +126,15 @@ func genC13(r *rand.Rand, n int, tier string) []string {
 func runC13(payload string) string {
 	f := strings.Split(payload, " | ")
 	var prog, query string
+	var post string
 	for _, p := range c13Programs {
 		if p.name == f[0] {
-			prog, query = p.prog, p.query
+			prog, query, post = p.prog, p.query, p.post
 		}
 	}
 	for _, p := range c13KnownStuck {
 		if p.name == f[0] {
-			prog, query = p.prog, p.query
+			prog, query, post = p.prog, p.query, p.post
 		}
 	}
 	i := prolog.New(nil, nil)
@@ -204,6 +222,12 @@ func runC13(payload string) string {
 	}
 	if err := sol.Scan(&s); err == nil && s.N == 3 {
 		follow = "ok"
+	}
+	if post != "" && follow == "ok" {
+		// nothing behind the interrupted goal may have run
+		if err := i.QuerySolution(post).Err(); err != nil {
+			follow = "bad-post"
+		}
 	}
 	bucket := "fast"
 	if lat > 100*time.Millisecond {
